@@ -128,6 +128,7 @@ def check(run):
             return
         exes[prof] = impl
     results = {}   # group index -> list of (case, answer)
+    corr_reports = []
     total, ntraces, ndis, nviol = 0, 0, 0, 0
     reached = {"prefix_truncated": 0, "supplied_hasher_discarded_for_truncated_prefix": 0, "supplied_hasher_compared_dev": 0, "supplied_hasher_used_release": 0,
                "supplied_hasher_kept_unseen": 0, "shared_range_skipped_or_empty": 0, "pool_reused": 0}
@@ -141,8 +142,7 @@ def check(run):
             owner.extend([gi] * len(ms))
         t0 = time.time()
         # contiguous chunks per process: consecutive poolr requests of a group meet the same (reused) pool
-        outs = vlib.run_lines(exes[prof], [c.line() for c in cases], shards=vlib.NCPU)
-        answers = [mc.Ans(o) for o in outs]
+        answers = mc.run_contiguous(exes[prof], cases)
         run.note("profile %s: %d calls in %d groups in %.1fs" % (prof, len(cases), len(groups), time.time() - t0))
         for c, a, gi in zip(cases, answers, owner):
             total += 1
@@ -161,7 +161,7 @@ def check(run):
                 if (j["f"] & 8) and i not in tr["H"]:
                     reached["supplied_hasher_kept_unseen"] += 1
             for p in tr["P"]:
-                if not p["st"] and 0 < p["e"] < (1 << 63):
+                if not p["st"]:
                     reached["shared_range_skipped_or_empty"] += 1
             if c.sp.startswith("poolr"):
                 reached["pool_reused"] += 1
@@ -181,8 +181,8 @@ def check(run):
                         cd.update({"model_line": ml[:3000], "diffs": diffs})
                         old = vlib.run_lines(model, [ml.replace("ver=cur", "ver=asf")], shards=1)[0]
                         hint = " (the model of the code AS FOUND agrees: a fix looks reverted)" if not mc.compare(c, a, old) else ""
-                        run.report("correspondence", cd, {"impl": a.text[:1500], "model": ma[:1500], "spec": "(group comparison: see spec-violation reports)"},
-                                   broken="correspondence Multi.v vs threading.rs/encode.rs: " + "; ".join(diffs)[:500] + hint, found_input=False)
+                        corr_reports.append((cd, {"impl": a.text[:1500], "model": ma[:1500], "spec": "(group comparison: see spec-violation reports)"},
+                                             "correspondence Multi.v vs threading.rs/encode.rs: " + "; ".join(diffs)[:500] + hint))
     # ---- search: every member of a group returns the same bytes
     nontriv = 0
     samples = []
@@ -216,6 +216,8 @@ def check(run):
             nontriv += 1
         if len(samples) < 4 and gi % 97 == 0:
             samples.append(ref_c.line(False))
+    for cd, obs, brk in corr_reports:
+        run.report("correspondence", cd, obs, broken=brk, found_input=False)
     run.cov["evaluations"] = total + ntraces
     run.cov["distinct_nontrivial"] = nontriv
     run.cov["traces_validated_against_impl"] = ntraces
